@@ -17,6 +17,13 @@ import (
 	"os"
 	"strings"
 
+	"flag"
+	"io"
+	"path/filepath"
+
+	"github.com/VKCOM/tl/internal/pure"
+	"github.com/VKCOM/tl/internal/puregen"
+	"github.com/VKCOM/tl/internal/puregen/gencanonical"
 	"github.com/VKCOM/tl/internal/tlast"
 )
 
@@ -30,6 +37,8 @@ type req struct {
 	WantPrint bool `json:"print"`
 	WantCanon bool `json:"canon"`
 	WantLex   bool `json:"lex"`
+	// canonical listing in-process: schemas[i] = list of [file name, content]
+	Schemas [][][2]string `json:"schemas"`
 	// random traces
 	N    int    `json:"count"`
 	Seed int64  `json:"seed"`
@@ -183,9 +192,9 @@ type field2 struct {
 	N   string `json:"n"`
 	Opt bool   `json:"opt"`
 	Ign bool   `json:"ign"`
-	T   type2  `json:"t"`
-	Cb  string `json:"cb"`
-	Cr  string `json:"cr"`
+	T   type2    `json:"t"`
+	Cb  []string `json:"cb"` // lines of the comment before, each trimmed (the neutral form)
+	Cr  string   `json:"cr"`
 }
 
 type variant2 struct {
@@ -193,7 +202,7 @@ type variant2 struct {
 	Al bool     `json:"al"`
 	T  []type2  `json:"t"`
 	Fs []field2 `json:"fs"`
-	Cb string   `json:"cb"`
+	Cb []string `json:"cb"`
 }
 
 type def2 struct {
@@ -214,7 +223,18 @@ type comb2 struct {
 	Def  []def2   `json:"def"`
 	Args []field2 `json:"args"`
 	Ret  []def2   `json:"ret"`
-	Cb   string   `json:"cb"`
+	Cb   []string `json:"cb"`
+}
+
+func cmtLines(s string) []string {
+	out := []string{}
+	if s == "" {
+		return out
+	}
+	for _, l := range strings.Split(s, "\n") {
+		out = append(out, strings.TrimSpace(l))
+	}
+	return out
 }
 
 func dumpArg2(a tlast.TL2TypeArgument) arg2 {
@@ -244,7 +264,7 @@ func dumpType2(t tlast.TL2TypeRef) type2 {
 func dumpFields2(fs []tlast.TL2Field) []field2 {
 	r := []field2{}
 	for _, f := range fs {
-		r = append(r, field2{N: f.Name, Opt: f.IsOptional, Ign: f.IsIgnored, T: dumpType2(f.Type), Cb: f.CommentBefore, Cr: f.CommentRight})
+		r = append(r, field2{N: f.Name, Opt: f.IsOptional, Ign: f.IsIgnored, T: dumpType2(f.Type), Cb: cmtLines(f.CommentBefore), Cr: f.CommentRight})
 	}
 	return r
 }
@@ -258,7 +278,7 @@ func dumpDef2(d tlast.TL2TypeDefinition) def2 {
 	if d.StructType.IsUnionType {
 		r.Un = true
 		for _, v := range d.StructType.UnionType.Variants {
-			x := variant2{Nm: v.Name, Al: v.IsTypeAlias, T: []type2{}, Fs: []field2{}, Cb: v.CommentBefore}
+			x := variant2{Nm: v.Name, Al: v.IsTypeAlias, T: []type2{}, Fs: []field2{}, Cb: cmtLines(v.CommentBefore)}
 			if v.IsTypeAlias {
 				x.T = append(x.T, dumpType2(v.TypeAlias))
 			} else {
@@ -273,7 +293,7 @@ func dumpDef2(d tlast.TL2TypeDefinition) def2 {
 }
 
 func dumpComb2(c tlast.TL2Combinator) comb2 {
-	r := comb2{An: []string{}, Fn: c.IsFunction, Ta: []targ{}, Def: []def2{}, Args: []field2{}, Ret: []def2{}, Cb: c.CommentBefore}
+	r := comb2{An: []string{}, Fn: c.IsFunction, Ta: []targ{}, Def: []def2{}, Args: []field2{}, Ret: []def2{}, Cb: cmtLines(c.CommentBefore)}
 	for _, a := range c.Annotations {
 		r.An = append(r.An, a.Name)
 	}
@@ -495,6 +515,70 @@ func tl2One(text string, q *req) (r result) {
 	return r
 }
 
+// canonicalOne does what cmd/tl2gen does for --language=canonical (same options binding, kernel, generator),
+// inside this process: the process start of the CLI dominates otherwise.  The check also runs the real CLI on a
+// sample and requires identical output.
+func canonicalOne(files [][2]string) (res map[string]any) {
+	res = map[string]any{}
+	defer func() {
+		if p := recover(); p != nil {
+			res["panic"] = fmt.Sprint(p)
+		}
+	}()
+	dir, err := os.MkdirTemp("", "verif-canon-")
+	if err != nil {
+		res["harness_error"] = err.Error()
+		return res
+	}
+	defer os.RemoveAll(dir)
+	old, _ := os.Getwd()
+	if err := os.Chdir(dir); err != nil {
+		res["harness_error"] = err.Error()
+		return res
+	}
+	defer os.Chdir(old)
+	var names []string
+	for _, f := range files {
+		if err := os.WriteFile(filepath.Join(dir, f[0]), []byte(f[1]), 0o644); err != nil {
+			res["harness_error"] = err.Error()
+			return res
+		}
+		names = append(names, f[0])
+	}
+	var errOut bytes.Buffer
+	opt := puregen.Options{ErrorWriter: &errOut}
+	fs := flag.NewFlagSet("tl2gen", flag.ContinueOnError)
+	fs.SetOutput(io.Discard)
+	opt.Bind(fs, "")
+	if err := fs.Parse(append([]string{"--language=canonical", "--outfile=canonical.out"}, names...)); err != nil {
+		res["harness_error"] = err.Error()
+		return res
+	}
+	run := func() error {
+		if err := opt.Validate(); err != nil {
+			return err
+		}
+		kernel := pure.NewKernel(&opt.Kernel)
+		if err := kernel.AddFilesFromPaths(fs.Args()); err != nil {
+			return err
+		}
+		return gencanonical.Generate(kernel, &opt)
+	}
+	if err := run(); err != nil {
+		res["accepted"] = false
+		res["error"] = err.Error()
+		return res
+	}
+	b, err := os.ReadFile(filepath.Join(dir, "canonical.out"))
+	if err != nil {
+		res["harness_error"] = "no listing written: " + err.Error()
+		return res
+	}
+	res["accepted"] = true
+	res["listing"] = string(b)
+	return res
+}
+
 func handle(q *req) map[string]any {
 	out := map[string]any{}
 	if q.B64 {
@@ -537,6 +621,12 @@ func handle(q *req) map[string]any {
 					rs[i].Panic = "lexer: " + l.Panic
 				}
 			}
+		}
+		out["res"] = rs
+	case "canonical":
+		rs := make([]map[string]any, len(q.Schemas))
+		for i, sch := range q.Schemas {
+			rs[i] = canonicalOne(sch)
 		}
 		out["res"] = rs
 	case "randtrace1":
@@ -953,6 +1043,10 @@ func randTrace2(q *req) (int, error) {
 func main() {
 	rd := bufio.NewReaderSize(os.Stdin, 1<<24)
 	wr := bufio.NewWriterSize(os.Stdout, 1<<20)
+	// the code under test prints progress to os.Stdout; keep the protocol stream clean
+	if null, err := os.OpenFile(os.DevNull, os.O_WRONLY, 0); err == nil {
+		os.Stdout = null
+	}
 	for {
 		line, err := rd.ReadBytes('\n')
 		if len(line) > 1 {
